@@ -212,7 +212,10 @@ func (e *Engine) strEq(a, b string) string {
 			return and(fs...)
 		}
 	}
-	return eq(a, b)
+	if a == b {
+		return "true"
+	}
+	return "(streq " + a + " " + b + ")"
 }
 
 func (e *Engine) uf(name string, nargs int, res string) string {
@@ -266,12 +269,18 @@ var axGroups = []axGroup{
 (declare-fun addrof_idx (Int) Int)
 (assert (forall ((r Int) (k Int)) (! (and (= (addrof_base (addrof r k)) r) (= (addrof_idx (addrof r k)) k) (< (addrof r k) (- 1000000))) :pattern ((addrof r k)))))
 `},
-	{[]string{"(strlen ", "(strbyte ", "(strof ", "(strarr ", "(strcat ", "(strsub ", "(strofrune "}, `(declare-fun strlen (Int) Int)
+	{[]string{"(strlen ", "(strbyte ", "(strof ", "(strarr ", "(strcat ", "(strsub ", "(strofrune ", "(streq "}, `(declare-fun strlen (Int) Int)
 (declare-fun strbyte (Int Int) Int)
 (declare-fun strcat (Int Int) Int)
 (declare-fun strsub (Int Int Int) Int)
 (declare-fun strofrune (Int) Int)
 (assert (forall ((s Int)) (! (>= (strlen s) 0) :pattern ((strlen s)))))
+`},
+	{[]string{"(streq "}, `(declare-fun streq (Int Int) Bool)
+(assert (forall ((a Int) (b Int)) (! (= (streq a b) (streq b a)) :pattern ((streq a b)))))
+(assert (forall ((a Int) (b Int)) (! (=> (streq a b) (= (strlen a) (strlen b))) :pattern ((streq a b)))))
+(assert (forall ((a Int) (b Int)) (! (=> (= a b) (streq a b)) :pattern ((streq a b)))))
+(assert (forall ((a Int) (b Int) (i Int)) (! (=> (and (streq a b) (<= 0 i) (< i (strlen a))) (= (strbyte a i) (strbyte b i))) :pattern ((streq a b) (strbyte a i)))))
 `},
 	{[]string{"(strof "}, `(declare-fun strof ((Array Int Int) Int Int) Int)
 (assert (forall ((a (Array Int Int)) (o Int) (l Int)) (! (=> (>= l 0) (= (strlen (strof a o l)) l)) :pattern ((strof a o l)))))
